@@ -9,6 +9,7 @@ import (
 	"os"
 	"os/exec"
 	"path/filepath"
+	"sort"
 	"strconv"
 	"strings"
 	"sync"
@@ -532,6 +533,9 @@ func c14CLI(c *run.Check) {
 	if prune && !pruneBroken && c.Get("cli_state_pruning") == nil {
 		c.Set("cli_state_pruning", "on from preemption bound 2: a decision (state key, thread to run) is expanded once per budget level; state key = per-thread history of operations and observed values + channel contents + WaitGroup counters + mutex states + the sequence of writes so far; validated per scenario by comparing the outcome sets of the pruned and the plain exploration at bound 1")
 	}
+	if c.Violations() == 0 {
+		c14cliRacePass(c, base)
+	}
 }
 
 // c14cliReplayRun re-executes a stored CLI schedule.
@@ -556,4 +560,89 @@ func c14cliReplayRun(r c14cliReplay) string {
 	}
 	v, _ := c14cliJudge(rep, blocks, diags, map[string]string{})
 	return v
+}
+
+// c14cliRacePass is the free-running counterpart of the CLI exploration: the
+// REAL tool (no rewriting), built with the race detector, on the scenario
+// inputs with every input named several times and eight workers. What a worker
+// does between two of its synchronisation or output operations is one step of
+// the exploration above; state shared inside such a step (a package-level
+// buffer used while formatting one file's block) only shows here. stdout must
+// be the same multiset of lines as with one worker, and the race detector must
+// stay silent.
+func c14cliRacePass(c *run.Check, base string) {
+	bin := filepath.Join(base, "race-xsel")
+	build := exec.Command("go", "build", "-race", "-o", bin, "github.com/ChrisTrenkamp/xsel/xsel")
+	build.Dir = filepath.Join(run.VerifDir, "harness")
+	if out, err := build.CombinedOutput(); err != nil {
+		c.Set("cli_race_pass", "skipped: the race-detector build of the tool failed: "+firstLine(string(out)))
+		return
+	}
+	rounds := 6
+	for i, sc := range c14cliScenarios {
+		dir := c14cliPrepare(base, sc, 100+i)
+		var flags, inputs []string
+		seenExpr := false
+		for k := 0; k < len(sc.Args); k++ {
+			a := sc.Args[k]
+			switch {
+			case !seenExpr && a == "-c":
+				k++ // replaced below
+			case !seenExpr && a == "-x":
+				flags = append(flags, a, sc.Args[k+1])
+				k++
+				seenExpr = true
+			case !seenExpr:
+				flags = append(flags, a)
+			case a == "-":
+				// stdin can be named once only
+			default:
+				inputs = append(inputs, a)
+			}
+		}
+		var many []string
+		for r := 0; r < 5; r++ {
+			many = append(many, inputs...)
+		}
+		runOnce := func(workers string) (string, string, error) {
+			ctx, cancel := context.WithTimeout(context.Background(), 5*time.Minute)
+			defer cancel()
+			cmd := exec.CommandContext(ctx, bin, append(append([]string{"-c", workers}, flags...), many...)...)
+			cmd.Dir = dir
+			var so, se bytes.Buffer
+			cmd.Stdout, cmd.Stderr = &so, &se
+			err := cmd.Run()
+			if ctx.Err() != nil {
+				return "", "", errCLIHang
+			}
+			_ = err // the exit status of the tool is C20's business
+			lines := strings.Split(so.String(), "\n")
+			sort.Strings(lines)
+			return strings.Join(lines, "\n"), se.String(), nil
+		}
+		want, serr, err := runOnce("1")
+		if err != nil || strings.Contains(serr, "WARNING: DATA RACE") {
+			continue // a serial run that hangs or races is not this pass's finding to make
+		}
+		for r := 0; r < rounds; r++ {
+			c.Evaluations.Add(1)
+			got, se, err := runOnce("8")
+			detail := ""
+			switch {
+			case err == errCLIHang:
+				detail = err.Error()
+			case strings.Contains(se, "WARNING: DATA RACE"):
+				k := strings.Index(se, "WARNING: DATA RACE")
+				detail = "the race detector reports:\n" + se[k:min(len(se), k+1500)]
+			case got != want:
+				detail = "stdout of the real tool with 8 workers is not the same multiset of lines as with 1 worker"
+			}
+			if detail != "" {
+				c.Violation(map[string]interface{}{"kind": "cli-race-pass", "scenario": sc.Name, "args": append(append([]string{"-c", "8"}, flags...), many...)},
+					fmt.Sprintf("free-running race-detector build of the tool, scenario %q (xsel -c 8 %s <each input 5 times>): %s", sc.Name, strings.Join(flags, " "), detail))
+				return
+			}
+		}
+	}
+	c.Set("cli_race_pass", fmt.Sprintf("the real tool built with -race: %d scenarios x %d runs with 8 workers and every input named 5 times: stdout = the one-worker multiset of lines, race detector silent", len(c14cliScenarios), rounds))
 }
